@@ -111,6 +111,8 @@ for _op in ('idiv', 'mod', 'and', 'or', 'xor', 'eqv', 'imp'):
 for _op in ('neg', 'abs', 'sign', 'int', 'cint', 'clng', 'ntos'):
     SIGS[_op] = [('i',), ('l',), ('s',), ('d',)]
 SIGS['not'] = [('i',), ('l',)]
+for _op in ('lt', 'gt', 'le', 'ge', 'eq', 'ne'):
+    SIGS[_op] = [('i',), ('l',), ('s',), ('d',)]
 for _a in 'ilsd':
     for _b in 'ilsd':
         if _a != _b:
@@ -139,6 +141,53 @@ def tick_instr(name, cells):
         with contextlib.redirect_stdout(buf):
             for k, v in cells:
                 cpu.push(TY[k], v)
+            cpu.tick()
+    except Exception as e:  # noqa: BLE001
+        tb = traceback.extract_tb(e.__traceback__)
+        return f'host {type(e).__name__} {tb[-1].name if tb else ""}'
+    if cpu.halted and cpu.halt_reason.name == 'TRAP':
+        return 'trap ' + cpu.last_trap.name
+    return 'ok'
+
+
+def frame_probes():
+    """(instruction, operand index, (kind, value) put into local cell 0 | None = never assigned): the instructions that read a
+    local or global cell expecting a particular kind, on a cell of another kind"""
+    out = []
+    for op in ('readl@', 'readg@'):
+        for cell in (('i', 5), ('t', 'x'), ('d', 1.5), None):
+            out.append((op, 0, cell))
+    for op, okkind in (('readl%', 'i'), ('readl&', 'l'), ('readl!', 's'), ('readl#', 'd'), ('readl$', 't'),
+                       ('readg%', 'i'), ('readg&', 'l'), ('readg!', 's'), ('readg#', 'd'), ('readg$', 't')):
+        for cell in (('i', 5), ('t', 'x'), ('d', 1.5), ('l', 7)):
+            if cell[0] != okkind:
+                out.append((op, 0, cell))
+    return out
+
+
+def tick_frame_instr(name, idx, cell):
+    """the real tick() of one variable-reading instruction with a one-cell frame / globals segment holding `cell`"""
+    import struct
+    import traceback
+    from qvm.instrs import op_to_instr
+    cpu = bare_cpu()
+    try:
+        code = bytes([op_to_instr['frame'].op_code]) + struct.pack('>HH', 0, 1) + \
+            bytes([op_to_instr[name].op_code]) + struct.pack('>H', idx) + bytes([op_to_instr['halt'].op_code])
+        cpu.module.code = code
+        cpu.pc = 0
+        buf = io.StringIO()
+        with contextlib.redirect_stdout(buf):
+            from qvm.cpu import CallFrame
+            cpu.push(TY['l'], 0)              # a return address for the frame
+            cpu.tick()                        # frame 0, 1
+            from qvm.cell import CellValue
+            if name.startswith('readg') and cpu.globals_segment.size <= idx:
+                cpu.globals_segment.cells += [None] * (idx + 1 - cpu.globals_segment.size)
+                cpu.globals_segment.size = idx + 1
+            if cell is not None:
+                seg = cpu.globals_segment if name.startswith('readg') else cpu.cur_frame
+                seg.set_cell(idx, CellValue(TY[cell[0]], cell[1]))
             cpu.tick()
     except Exception as e:  # noqa: BLE001
         tb = traceback.extract_tb(e.__traceback__)
